@@ -161,7 +161,9 @@ let fl_apply (st : fstate) (op : string list) : fstate * string =
   | ["SizeEst"] -> (match run FSizeEst with (st', FRNum x) -> (st', num x) | (st', _) -> (st', "?"))
   | ["Snap"] -> (match run FSnap with (st', FRContent l) -> (st', content_s l) | (st', _) -> (st', "?"))
   | "Batch" :: r -> ok (FBatch (batch_wops r))
-  | ["Stat"] | ["Compact"] | ["InitDb"] -> ok FStat
+  | ["Stat"] -> ok FStat
+  | ["Compact"] -> ok FCompact
+  | ["InitDb"] -> ok FInitDb
   | _ -> (st, "?")
 
 let flag_key = bs "flag"
